@@ -128,6 +128,9 @@ pub fn c08(tier: Tier) -> i32 {
             },
         };
         bump(c, "partitioned", 1);
+        if e.text.len() <= 3 || e.pass == "corpus" {
+            rep.sample(json!({"expression": e.text, "prefix": prefix.to_string_lossy(), "postfix": postfix.as_ref().map(|p| p.to_string())}));
+        }
         if !prefix.as_os_str().is_empty() {
             bump(c, "with_nonempty_prefix", 1);
         }
@@ -307,8 +310,27 @@ pub fn c08(tier: Tier) -> i32 {
                         _ => false,
                     }
                 };
+                // D4: the position a nested tree wildcard is encoded for changes when the prefix
+                // tokens are removed; attributed only if the encoder's mirror predicts both sides
+                let d4 = refmodel::astops::nested_tree(&e.ast, false) && {
+                    let lhs_pred = Dfa::new(&refmodel::lang::mirror_regex(&e.ast)).map_or(false, |d| d.accepts(p) == lhs_real);
+                    let rhs_pred = match (&postfix, Path::new(p).strip_prefix(&prefix)) {
+                        (Some(post), Ok(rem)) => {
+                            let rem = rem.to_string_lossy().to_string();
+                            syntax::parse(&post.to_string())
+                                .ok()
+                                .and_then(|a| Dfa::new(&refmodel::lang::mirror_regex(&a)).ok())
+                                .map_or(false, |d| d.accepts(&rem) == post.is_match(rem.as_str()))
+                        },
+                        _ => false,
+                    };
+                    lhs_pred && rhs_pred
+                };
                 let class = if d1 {
                     Some("rooted-first-tree-optional-separator".to_string())
+                }
+                else if d4 && !rooted_rep {
+                    Some("nested-tree-position".to_string())
                 }
                 else if lists_sep {
                     Some("separator-in-class-is-invariant-text".to_string())
@@ -420,6 +442,9 @@ fn c18_check(rep: &Report, c: &mut Counters, s: &str, model_check: bool) {
     }
     bump(c, "strings", 1);
     let escaped = wax::escape(s);
+    if s.len() == 3 && s.starts_with('*') {
+        rep.sample(json!({"string": s, "escaped": escaped}));
+    }
     let has_meta = s.chars().any(wax::is_meta_character);
     let case = |check: &str| json!({"kind": "escape", "string": s, "check": check});
     if !has_meta && escaped.as_ref() != s {
